@@ -8,6 +8,7 @@ package main
 
 import (
 	"net/url"
+	"strings"
 	"fmt"
 	"go/types"
 )
@@ -138,7 +139,36 @@ func init() {
 		if g, ok := fr.i.ghost["URL.Query"]; ok {
 			return g
 		}
-		return makeMap(types_String)
+		m := makeMap(types_String)
+		// a concrete query string is parsed by net/url itself (a fresh map per call, as natively)
+		if p, ok := args[0].(*value); ok && p != nil {
+			if st, ok := (*p).(structure); ok {
+				if raw, ok := st[fieldIndex(recvElem(fr), "RawQuery")].(string); ok {
+					u := url.URL{RawQuery: raw}
+					vals := u.Query()
+					// deterministic order: first appearance in the query string
+					for _, kv := range strings.FieldsFunc(raw, func(r rune) bool { return r == '&' || r == ';' }) {
+						k := kv
+						if i := strings.IndexByte(kv, '='); i >= 0 {
+							k = kv[:i]
+						}
+						if uk, err := url.QueryUnescape(k); err == nil {
+							k = uk
+						}
+						if vs, ok := vals[k]; ok && m.find(fr.ex(), k) == nil {
+							sl := make([]value, len(vs))
+							for i, v := range vs {
+								sl[i] = v
+							}
+							m.insert(fr.ex(), k, sl)
+						}
+					}
+				} else {
+					fr.ex().unsupported("URL.Query of a symbolic query string without a ghost")
+				}
+			}
+		}
+		return m
 	}
 	intrinsics["net/http.Redirect"] = func(fr *frame, args []value) value {
 		w := args[0].(iface)
